@@ -41,9 +41,14 @@ class Write:
 
 def tri(test, flagname, val, call_hook=None):
     """Three-valued evaluation of ``test`` with the flag fixed to ``val``: True/False/None.  ``call_hook(call, flag, val)``
-    evaluates a call to a predicate helper (single ``return <boolean expression>``) the same way."""
+    evaluates a call to a predicate helper (single ``return <boolean expression>``) the same way; its attribute ``defs``
+    maps a local that is bound exactly once to the expression it names."""
     if isinstance(test, ast.Name) and test.id == flagname:
         return val
+    if isinstance(test, ast.Name) and call_hook is not None and test.id in getattr(call_hook, "defs", {}):
+        d = call_hook.defs[test.id]
+        if d is not test:
+            return tri(d, flagname, val, call_hook)
     if isinstance(test, ast.Call) and call_hook is not None:
         return call_hook(test, flagname, val)
     if isinstance(test, ast.Constant):
@@ -255,6 +260,17 @@ class Effects:
     def _analyse1(self, f, tracked, flags0):
         cfg = CFG(_desugar_ifexp(f.node))
         hook = self._predicate(f)
+        # locals bound exactly once to a boolean-looking expression stand for it in tests
+        once = {}
+        for n_ in f.body_nodes():
+            if isinstance(n_, ast.Assign) and len(n_.targets) == 1 and isinstance(n_.targets[0], ast.Name):
+                once.setdefault(n_.targets[0].id, []).append(n_.value)
+            elif isinstance(n_, (ast.AugAssign, ast.AnnAssign, ast.For, ast.With, ast.NamedExpr)):
+                for x_ in ast.walk(n_):
+                    if isinstance(x_, ast.Name) and isinstance(x_.ctx, ast.Store):
+                        once.setdefault(x_.id, []).extend([None, None])
+        hook.defs = {k: v[0] for k, v in once.items() if len(v) == 1 and isinstance(v[0], (ast.BoolOp, ast.Compare, ast.UnaryOp, ast.Name))
+                     and k not in f.all_param_names()}
         flag = self.flag if (self.flag and self.flag in f.all_param_names()) else None
         env0 = {}
         for p in f.all_param_names():
